@@ -36,6 +36,7 @@ def run(ctx, report):
     report.section("geometry immutability", geometry_immut, ctx, report)
     from . import markup_writer_fold
     report.section("written documents", markup_writer_fold.run, ctx, report, {"unchanged": ("R-DOC-UNCHANGED", "1")})
+    report.section("writer objects used repeatedly", markup_writer_fold.reuse, ctx, report, "R-DOC-UNCHANGED", "2")
     report.not_decided.append("byte identity across processes as such; determinism of bs4/lxml serialisation")
     report.assume("copy.deepcopy of the caption model yields objects disjoint from the original (no copy hooks: checked)")
     report.assume("third-party objects (bs4 tags, lxml) are created per call and not shared between writes")
